@@ -15,9 +15,11 @@ EXPLANATION = (
     "satisfy I, a returned `&mut` into the solution implies objective = None, and the only way a Some(objective) is "
     "created is from the caller-supplied objective function applied to the individual's own solution or by copying a "
     "(solution, objective) pair together; (R3) the three entry points that accept an arbitrary objective value "
-    "(new, new_test_unit, set_objective) are called only from the testing helpers / nowhere, and evaluate_with is "
-    "called only from Evaluate implementations with a closure returning problem.objective(<its own argument>); "
-    "offspring are wrapped by new_unevaluated. NOT decided: that user objective functions are pure; the per-run "
+    "(new, new_test_unit, set_objective) and evaluate_with are used only by the testing helpers, by Individual's own "
+    "methods, with a visibly consistent (solution, objective) pair, or inside the Evaluate implementations (closures "
+    "and private helpers included), and there the evaluator rule (K6: every individual of a slice of 0..4 ends up "
+    "with f(its own solution), the objective called once per individual) decides what is stored; into_individuals "
+    "(K6) wraps the solutions in order as unevaluated individuals. NOT decided: that user objective functions are pure; the per-run "
     "audit over shipped heuristics is implied by I, not executed.")
 ASSUMPTIONS = ["user objective functions are deterministic functions of the solution",
                "Clone of an encoding yields an equal encoding"]
